@@ -416,18 +416,7 @@ def v5_equations(ctx) -> None:
         ctx.ok("V5", "DisjointUnion.get_equation: child i's function with child i's table")
     else:
         ctx.violation("V5", loops[0], f"DisjointUnion.get_equation pairs {za}; function i must be paired with table i")
-    items = _items_loops(loops[0])
-    if not items:
-        ctx.violation("V5", f, "DisjointUnion.get_equation no longer walks the table's items", construct="DisjointUnion.get_equation items")
-    else:
-        node, table, pv, cv = items[0]
-        t = norm(node) if isinstance(node, ast.For) else norm(parent(node))
-        acc = isinstance(node, ast.For) and f"subs[{cv}] *= sympy.var({pv})" in t and f"subs[{cv}] = sympy.var({pv})" in t and f"{cv} in subs" in t
-        if acc:
-            ctx.ok("V5", "union equation: the child's variable is replaced by the product of all parent variables mapped onto it")
-        else:
-            ctx.violation("V5", node if isinstance(node, ast.For) else parent(node), "union equation: the substitution for a child variable must be the *product* of the parent "
-                          f"variables mapped onto it (subs[{cv}] *= var({pv}) when already present); a plain {{child: parent}} table keeps only one of them")
+    _multi_valued_substitution(ctx, f, loops[0], "DisjointUnion.get_equation")
     _subs_calls(ctx, f, "DisjointUnion.get_equation")
     # product
     m = P.need_method("CartesianProduct", "get_equation", own=True)
@@ -438,13 +427,8 @@ def v5_equations(ctx) -> None:
         ctx.ok("V5", "CartesianProduct.get_equation: child i's function with child i's table")
     else:
         ctx.violation("V5", f, "CartesianProduct.get_equation must pair rhs_funcs with self.extra_parameters positionally", construct="CartesianProduct.get_equation zip")
-    dcs = [n for n in walk_local(f) if isinstance(n, ast.DictComp)]
-    good = any(_is_swap(n) and norm(n.generators[0].iter).endswith(".items()") for n in dcs)
-    if good:
-        ctx.ok("V5", "product equation: substitution table is {child variable: parent variable}")
-    else:
-        ctx.violation("V5", f, "CartesianProduct.get_equation must substitute {child variable: parent variable} (the inverse of the parent->child table)",
-                      construct="CartesianProduct.get_equation table")
+    if loops:
+        _multi_valued_substitution(ctx, f, loops[0], "CartesianProduct.get_equation")
     _subs_calls(ctx, f, "CartesianProduct.get_equation")
     # constructors that cannot express parameters refuse
     for cname in ("Complement", "Quotient"):
@@ -510,6 +494,34 @@ def v5_equations(ctx) -> None:
         ctx.ok("V5", "get_equations emits one equation per rule of the specification")
     else:
         ctx.violation("V5", f, "get_equations must walk every rule of the specification", construct="CombinatorialSpecification.get_equations loop")
+
+
+
+def _multi_valued_substitution(ctx, f, loop_zip, where: str) -> None:
+    """Inside the per-child loop: the substitution for a child variable is the product of
+    all parent variables mapped onto it."""
+    items = _items_loops(loop_zip)
+    if not items:
+        ctx.violation("V5", f, f"{where} no longer walks the table's items", construct=f"{where} items")
+        return
+    node, table, pv, cv = items[0]
+    if not isinstance(node, ast.For):
+        ctx.violation("V5", parent(node), f"{where}: the substitution table is built by a comprehension {{child: parent ...}}, which keeps only one parent "
+                      "variable per child variable; when several parent statistics map onto one child statistic the substitute must be their *product* "
+                      "(the counting code does credit all of them)")
+        return
+    t = norm(node)
+    form_a = f"subs[{cv}] *= sympy.var({pv})" in t and f"subs[{cv}] = sympy.var({pv})" in t and f"{cv} in subs" in t
+    form_b = f"subs[{cv}] = subs.get({cv}, 1) * sympy.var({pv})" in t or f"subs[{cv}] = sympy.var({pv}) * subs.get({cv}, 1)" in t
+    swapped = f"subs[{pv}]" in t
+    if (form_a or form_b) and not swapped:
+        ctx.ok("V5", f"{where}: the child's variable is replaced by the product of all parent variables mapped onto it")
+    elif swapped:
+        ctx.violation("V5", node, f"{where}: the substitution is keyed by the parent's variable; the child's function is written in the child's variables, "
+                      "which must be replaced by the parent's")
+    else:
+        ctx.violation("V5", node, f"{where}: the substitution for a child variable must accumulate the product of the parent variables mapped onto it "
+                      f"(subs[{cv}] *= var({pv}) when already present)")
 
 
 def _subs_calls(ctx, f, where: str) -> None:
